@@ -43,9 +43,10 @@ Succs(n) == SeqSet(G.succ[n])
 HasEdge(u, v) == v \in Succs(u)
 Edge(u, v) == G.edge[u][v]
 IsCaseEdge(u, v) == Edge(u, v).cs # "-"
-(* the reduced view of _get_reduced_dag: case_branch edges dropped; a one-of child is visible only in the one-of
-   subgraph built to run it, i.e. as the destination of a one-of dag (it belongs to no other scope) *)
-VisNode(n, oneof, dest) == ~A(n).is_child \/ (oneof /\ n = dest)
+(* the reduced view of _get_reduced_dag: case_branch edges dropped; a one-of child is visible only in the subgraph
+   built to run it, i.e. as the destination of a dag (it belongs to no other scope) - unless it is also an ordinary
+   dependency of some node (a successor that is not a one-of head): then it is an ordinary node everywhere *)
+VisNode(n, oneof, dest) == ~A(n).is_child \/ n = dest \/ \E v \in Succs(n) : ~A(v).is_head
 VEdge(u, v, filtered, oneof, dest) ==
     HasEdge(u, v) /\ (~filtered \/ (~IsCaseEdge(u, v) /\ VisNode(u, oneof, dest) /\ VisNode(v, oneof, dest)))
 
@@ -490,7 +491,7 @@ Exec(S, t) ==
                        THEN Raise(Notify(S, "run"), t, <<"err", <<sw, 0, "unknown_label">>>>)
                        ELSE LET c == CHOOSE p \in cases : TRUE
                                 S1 == [S EXCEPT !.sw[sw] = c]
-                            IN  Exec(CallDag(SetPc(S1, t, "s1"), t, MkDag(G.input, c, D.oneof, FALSE, FALSE, TRUE)), t)
+                            IN  Exec(CallDag(SetPc(S1, t, "s1"), t, MkDag(G.input, c, D.oneof, D.nested, FALSE, TRUE)), t)     \* is_oneof and is_nested_oneof of the owning dag
               [] f.pc = "s1" -> Continue(Ret(NotifyDesc(S, f.n), t, <<"none">>), t))
       [] f.fn = "oneof" ->
            (CASE f.pc = "o0" -> OneofLoop(S, t)
@@ -598,7 +599,9 @@ NoStuck == ~(Running /\ Len(st.ready) = 0 /\ st.gates = {} /\ Len(st.timers) = 0
 (* C04: per (node, provenance tag) at most `attempts` body invocations.  An iteration requested with
    next_iteration(None) runs the start node WITHOUT additional_data, i.e. with the provenance of an earlier execution:
    every such request of the run's plan allows one more execution under the same tag *)
-NoneIters(S) == Cardinality({x \in (DOMAIN RunCfg(S).recnone) \X (1..8) : x[2] <= Len(RunCfg(S).recnone[x[1]])})
+NoneIters(S) == Cardinality({x \in (DOMAIN RunCfg(S).recnone) \X (1..8) :
+                                 x[2] <= Len(RunCfg(S).recnone[x[1]])
+                                 \/ (RunCfg(S).recfalsy[x[1]] /\ x[1] \in Dests /\ x[2] <= A(x[1]).maxit)})   \* payload 0: no epoch in the tag
 AtMostOnce == \A i \in 1..Len(st.starts) :
                  Cardinality({j \in 1..Len(st.starts) : st.starts[j][1] = st.starts[i][1] /\ st.starts[j][3] = st.starts[i][3]})
                     <= A(st.starts[i][1]).attempts * (1 + NoneIters(st))
